@@ -36,7 +36,9 @@ def r1_paired(ctx, F):
         if not muts:
             continue
         n += 1
-        reads = field_reads_of(F, f, "small_map::SmallMap", "_1", depth=0)
+        from kern import field_mut_access_of
+        reads = field_reads_of(F, f, "small_map::SmallMap", "_1", depth=0) | field_mut_access_of(
+            F, f, "small_map::SmallMap", "_1", depth=1)
         guards = [st for st in f.stmts if st.kind.endswith("RebuildIndexOnDrop::RebuildIndexOnDrop") or
                   "RebuildIndexOnDrop" in st.kind]
         if guards:
@@ -64,6 +66,28 @@ def r1_paired(ctx, F):
                   "guard-drop:rebuilds:" + short_fn(top_fn(F, d).qpath) + ":" + d.qpath.split("::")[-4 if False else -3][:20],
                   "dropping the guard calls rebuild_index (unconditionally, or unless no entry was removed)",
                   "RebuildIndexOnDrop::drop no longer rebuilds the index", fn=d)
+    # clear(): on every path the index ends up empty: it is cleared, dropped (set to None), or was None already
+    cl = F.one(r"starlark_map::small_map::SmallMap::<K, V>::clear$")
+    from kern import switch_info, enum_variant_names
+    idx_clear = [c for c in cl.calls if c.bb not in cl.cleanup and re.search(r"hashbrown::HashTable::<T, A>::clear$", c.name)]
+    set_none = [st for st in cl.stmts if st.lhs.endswith("{small_map::SmallMap::index}") and st.bb not in cl.cleanup]
+    none_edges = set()
+    for b in cl.terms:
+        info = switch_info(cl, b)
+        from kern import resolve_place
+        if info and info["kind"] == "enum" and info["place"] and "{small_map::SmallMap::index}" in resolve_place(
+                cl, info["place"]):
+            names = enum_variant_names(F, info["ty"])
+            for v, t in info["targets"].items():
+                if names.get(v) == "None":
+                    none_edges.add((b, t))
+            if "None" in names.values() and not any(names.get(v) == "None" for v in info["targets"]):
+                none_edges.add((b, info["otherwise"]))
+    r = cl.reach(0, cut_blocks={c.bb for c in idx_clear} | {st.bb for st in set_none}, cut_edges=none_edges)
+    ctx.check(not (set(cl.returns()) & r), "C11.R1", "clear:index-emptied-on-every-path",
+              "every path through clear() empties the index, drops it, or finds it absent",
+              "SmallMap::clear can return with the hash index still holding the positions of the removed entries "
+              "(lookups after a refill go through stale slots)", fn=cl)
     # SmallSet wrappers delegate to SmallMap (no own index handling)
     ss = [f for f in F.fns.values() if re.match(r"starlark_map::small_set::SmallSet::<T>::\w+$", f.qpath)]
     direct = [f for f in ss if any(re.match(r"starlark_map::vec_map::VecMap::<K, V>::\w+$", c.name)
